@@ -53,6 +53,7 @@ type Features struct {
 	XCap     bool // ?( )
 	Pipes    bool // pipelines of value-stream builtins
 	More     bool // further builtins of Appendix B.4
+	Del      bool // del of variables and map elements
 	ErrRate  int  // percent of deliberately ill-kinded expressions
 }
 
@@ -70,7 +71,8 @@ func (f Features) Names() []string {
 	add(f.RestOpts, "rest-args", "options")
 	add(f.XCap, "exception-capture")
 	add(f.Pipes, "pipelines")
-	add(f.More, "more-builtins")
+	add(f.More, "more-builtins", "exception-fields", "interaction-patterns")
+	add(f.Del, "del")
 	return out
 }
 
@@ -87,6 +89,7 @@ type Gen struct {
 	pure      int // > 0: inside a lambda that must not assign outer variables
 	inTry     int
 	loopVar   map[string]bool
+	dead      map[string]bool
 }
 
 func NewGen(seed int64, f Features) *Gen {
@@ -113,11 +116,21 @@ func (g *Gen) declare(name string, vi *varInfo) {
 
 func (g *Gen) lookup(name string) *varInfo {
 	for i := len(g.scopes) - 1; i >= 0; i-- {
-		if vi, ok := g.scopes[i].vars[name]; ok {
+		if vi, ok := g.scopes[i].vars[name]; ok && vi != nil {
 			return vi
 		}
 	}
 	return nil
+}
+
+// deleted: after `del n` the name must not be used until it is declared again: an outer variable
+// of the same name would become visible, which the model (one flat environment) does not track.
+func (g *Gen) deleted(n string) {
+	for i := range g.scopes {
+		if _, ok := g.scopes[i].vars[n]; ok {
+			g.scopes[i].vars[n] = nil
+		}
+	}
 }
 
 // visible variables (innermost binding of each name), in a deterministic order
@@ -180,7 +193,11 @@ func (g *Gen) wrongKind(k Kind) Kind {
 // Expr yields an expression evaluating to exactly one value of kind k (ErrRate percent of the
 // time, deliberately, of another kind).
 func (g *Gen) Expr(k Kind, depth int) *Node {
-	if g.F.ErrRate > 0 && k != KAny && g.chance(g.F.ErrRate) {
+	rate := g.F.ErrRate
+	if g.inTry > 0 {
+		rate *= 8 // inside try bodies exceptions are welcome: they exercise catch / else / finally
+	}
+	if rate > 0 && k != KAny && g.chance(rate) {
 		k = g.wrongKind(k)
 	}
 	return g.expr(k, depth)
@@ -303,7 +320,8 @@ func (g *Gen) expr(k Kind, depth int) *Node {
 			return Idx(l, Str(g.sliceText()))
 		}
 		if !leaf && g.F.More && g.chance(15) {
-			return CapCmd("conj", g.expr(KList, depth-1), g.Expr(KNStr, depth-1))
+			// conj only on a list literal: `conj $nil x` crashes the interpreter (C17's subject)
+			return CapCmd("conj", List(g.Expr(KNStr, depth-1)), g.Expr(KNStr, depth-1))
 		}
 		n := g.R.Intn(4)
 		if leaf && n > 2 {
@@ -493,7 +511,15 @@ func adjacentOK(prev string, e *Node) bool {
 
 func kindOfExprList(k Kind) *varInfo { return &varInfo{kind: k, elem: KAny, n: -1} }
 
-func (g *Gen) freshName() string { return g.pick(varNames) }
+// freshName: a name of the pool that was never deleted (after `del x` an outer variable x would
+// become visible again, which the flat environments of the model do not track)
+func (g *Gen) freshName() string {
+	for {
+		if n := g.pick(varNames); !g.dead[n] {
+			return n
+		}
+	}
+}
 
 // Stmt yields one statement, as one or (for a loop with its counter) two pipelines.
 func (g *Gen) Stmt(depth int) []*Node {
@@ -554,6 +580,12 @@ func (g *Gen) Stmt(depth int) []*Node {
 	}
 	if g.F.Pipes && depth > 0 {
 		alts = append(alts, alt{10, one(func() *Node { return g.pipeStmt(depth) })})
+	}
+	if g.F.Del {
+		alts = append(alts, alt{3, one(func() *Node { return g.delStmt(depth) })})
+	}
+	if g.F.Fn && g.F.More && depth > 0 {
+		alts = append(alts, alt{6, func() []*Node { return g.patternStmt(depth) }})
 	}
 	total := 0
 	for _, a := range alts {
@@ -711,6 +743,35 @@ func (g *Gen) setStmt(depth int) *Node {
 	return Stmt(Set([]LV{{N: n}}, 0, e))
 }
 
+// delStmt: delete a variable of the current scope, or an element of a map variable
+func (g *Gen) delStmt(depth int) *Node {
+	if ms := g.varsOfKind(KMap); len(ms) > 0 && g.chance(50) {
+		m := g.pick(ms)
+		if !g.loopVar[m] {
+			return Stmt(&Node{T: "del", Lhs: []LV{{N: m, Idx: []*Node{Str(g.pick(keyWords))}}}})
+		}
+	}
+	var cands []string
+	inPool := map[string]bool{}
+	for _, n := range varNames {
+		inPool[n] = true
+	}
+	ndead := len(g.dead)
+	for _, n := range g.top().order {
+		if vi := g.top().vars[n]; vi != nil && vi.kind != KFn && !g.loopVar[n] && g.lookup(n) == vi && inPool[n] {
+			cands = append(cands, n)
+		}
+	}
+	if len(cands) == 0 || ndead >= 3 {
+		return nil
+	}
+	n := g.pick(cands)
+	g.dead[n] = true
+	g.top().vars[n] = nil // the name is gone (an outer variable of that name stays hidden: see lookup)
+	g.deleted(n)
+	return Stmt(&Node{T: "del", Lhs: []LV{{N: n}}})
+}
+
 func (g *Gen) lookupScope(name string) *scope {
 	for i := len(g.scopes) - 1; i >= 0; i-- {
 		if _, ok := g.scopes[i].vars[name]; ok {
@@ -740,6 +801,7 @@ func (g *Gen) Program(chunks, stmtsPer, depth, fuel int) []*Node {
 	g.fuel = fuel
 	g.scopes = nil
 	g.loopVar = map[string]bool{}
+	g.dead = map[string]bool{}
 	g.push(true)
 	out := make([]*Node, 0, chunks)
 	for c := 0; c < chunks; c++ {
